@@ -228,6 +228,8 @@ def run(ck, F, tier):
         # allowed: join().unwrap() of the progress thread in ber (reviewed)
         unw = [c for c in unw if not (mod == "ber" and "join" in (strip(c["recv"]).get("m") or ""))]
         ck.inst("L5", mod + ":no-unwrap", not unw, unw[0]["sp"] if unw else b.span, "no unwrap/expect on fallible results in %s::run" % mod)
+    from .c19 import pattern_non_empty
+    pattern_non_empty(ck, F, "L5")
     mb = F.by_crate["ldpc_toolbox-bin"]
     mains = [x for x in mb if x.path == "main"]
     ok = bool(mains) and "std::result::Result<(), std::boxed::Box<dyn std::error::Error>>" in (mains[0].d.get("sig_output") or "")
